@@ -23,6 +23,7 @@ type zzConnRec struct {
 	awaitKind int
 	cancelCtx func()
 	notifyErr error
+	byDeadline, awaitOwnError bool
 }
 
 type zzNotifyRec struct {
@@ -52,7 +53,16 @@ func zzAwaitStub(ac *jsonrpc2.AsyncCall, ctx context.Context, result any) error 
 	case 3:
 		return fmt.Errorf("%w: EOF", jsonrpc2.ErrServerClosing)
 	}
-	zzCR.cancelCtx() // the caller's context ends while waiting (the peer never answers)
+	// the caller's context ends while waiting (the peer never answers): by cancellation or because its deadline passes;
+	// Await reports the context's error, or whatever error the interruption produced
+	if zzCR.byDeadline {
+		vCtxCancel(ctx, context.DeadlineExceeded)
+	} else {
+		zzCR.cancelCtx()
+	}
+	if zzCR.awaitOwnError {
+		return errors.New("await interrupted")
+	}
 	return ctx.Err()
 }
 func zzRetireStub(c *jsonrpc2.Connection, ac *jsonrpc2.AsyncCall, err error) {
@@ -89,6 +99,7 @@ func zzCheckCancelNotice(n zzNotifyRec, caller context.Context) {
 func zzC04Call() {
 	rec := &zzConnRec{theCall: &jsonrpc2.AsyncCall{}, awaitKind: vChoice("await", 5)}
 	zzCR = rec
+	rec.byDeadline, rec.awaitOwnError = vBool("endsByDeadline"), vBool("awaitReportsItsOwnError")
 	if vBool("noticeUndeliverable") {
 		rec.notifyErr = errors.New("write blocked forever")
 	}
@@ -107,8 +118,12 @@ func zzC04Call() {
 	case 4:
 		// cancelled: returns the context's error at once, having retired the call itself and without having
 		// waited for the notice (which travels on its own goroutine)
-		vAssert(err == context.Canceled, "C04.cancelled-call-returns-ctx-error")
-		vAssert(len(rec.retires) == 1 && rec.retires[0] == context.Canceled, "C04.cancelled-call-retired-eagerly")
+		want := error(context.Canceled)
+		if rec.byDeadline {
+			want = context.DeadlineExceeded
+		}
+		vAssert(err == want, "C04.cancelled-call-returns-ctx-error")
+		vAssert(len(rec.retires) == 1 && rec.retires[0] == want, "C04.cancelled-call-retired-eagerly")
 		vAssert(len(rec.notifies) == 0, "C04.notice-not-sent-on-the-callers-path")
 		vAssert(vNumSpawned() == 1, "C04.notice-sent-from-its-own-goroutine")
 		vRunSpawned(0)
